@@ -305,3 +305,6 @@ class C02(Prop):
 
 
 PROP = C02()
+
+PROP.rule += (" Strata added while closing seeded changes (DESIGN section 10): "
+              "declared curve counts differing from the columns, NULL equal to index samples, mixed tab/blank separators, odd line-break characters in noise, text cells incl. '#N/A' markers, data sections without rows, a line longer than any buffer ahead of ~A, reads into a LASFile that has read a DLM/WRAP file before.")
